@@ -330,3 +330,20 @@ def run(ctx):
     ctx.ob('RANK-KEY', 'score-distance-exact', not lossy, cs_.where(),
            'the score\'s distance term is not a lossy projection of the 256-bit distance' if not lossy else
            'rank key loses distance information: %s — peers whose ids differ only in low-order bytes get equal scores, so a farther peer listed first outranks a closer one of equal trust' % '; '.join(lossy))
+    # ---- 6. without trust selection the choice is the closest candidates in distance order: that is the routing table's
+    # closest-node answer, whose exactness rules live in C02 (scan of all buckets, ascending sort on the full 32-byte XOR
+    # distance, take(count)); they are evaluated here too because this clause of C16 stands or falls with them
+    from props import c02 as C02
+    import runner as _runner
+    sub = _runner.Ctx('C02', prog, ctx.tier, ctx.progs)
+    try:
+        C02.run(sub)
+    except Exception as e:  # pragma: no cover - fail closed
+        ctx.ob('CLOSEST-ORDER', 'closest:rules-ran', False, '-', 'the closest-node rules could not be evaluated: %s' % e)
+        return
+    n6 = 0
+    for o in sub.obls:
+        if o.rule in ('ORDER', 'TOTAL-SCAN'):
+            n6 += 1
+            ctx.ob('CLOSEST-ORDER', 'closest:%s' % o.key, o.ok, o.where, o.detail, entry=o.entry)
+    ctx.floor('CLOSEST-ORDER', 6)
